@@ -6,7 +6,7 @@ from SEED. answer: `ok N once|count-violation bounded|over-limit:K` -/
 namespace Driver.Dom.Sched
 open Elk.Sched Driver
 
-def tag : String := "fe"
+def tag : String := "fore"
 
 def lcg (x : Nat) : Nat := (x * 6364136223846793005 + 1442695040888963407) % 18446744073709551616
 
